@@ -400,6 +400,16 @@ Definition sp_look (c : cfg) (st : astate) (nx : N) (o : op) : option sres :=
   | _ => None
   end.
 
+(** ** more operations of the fragment *)
+
+(** a value of another type offered to the erased push / insert: refused (PType), destroyed once, nothing
+    else changes *)
+Definition sp_offer_wrong (c : cfg) (st : astate) (nx : N) (v : nat) (k : N) : option sres :=
+  match get_a v st with
+  | Some _ => if k =? c_ty c then None else Some (panic_res PType (drop_ev c (tok c nx)) st (nx + 1))
+  | None => None
+  end.
+
 (** the fragment: by-value or boxed replacement values, all of the right type, honest size hint *)
 Lemma sp_splice_inv c st nx v sb eb pat f rk n wrong_at claimed r :
   sp_splice c st nx v sb eb pat f rk n wrong_at claimed = Some r ->
@@ -424,8 +434,29 @@ Definition spec_step (c : cfg) (st : astate) (nx : N) (o : op) : option sres :=
       match get_a v st with Some a => if Nat.eqb dst v then None else sp_new c st nx dst (a_bk a) | None => None end
   | OCloneEmptyIn v dst bk =>
       match get_a v st with Some _ => if Nat.eqb dst v then None else sp_new c st nx dst bk | None => None end
-  | OPush _ v s => if fresh_src s then sp_offer c st nx v None else None
-  | OInsert _ v idx s => if fresh_src s then sp_offer c st nx v (Some idx) else None
+  | OWithCapacity dst bk _ => if resizable bk then sp_new c st nx dst bk else None
+  | OPush a v s =>
+      if fresh_src s then sp_offer c st nx v None
+      else match a, s with
+           | Erased, SWrong k | Erased, SBoxWrong k => sp_offer_wrong c st nx v k
+           | _, _ => None
+           end
+  | OInsert a v idx s =>
+      if fresh_src s then sp_offer c st nx v (Some idx)
+      else match a, s with
+           | Erased, SWrong k | Erased, SBoxWrong k =>
+               (* the type is checked before the index *)
+               sp_offer_wrong c st nx v k
+           | _, _ => None
+           end
+  | ODownWrong v k idx =>
+      (* a removal handle whose downcast to another type gives None: the element is destroyed as by a
+         dropped handle; reported: type id ok, size, three refused downcasts *)
+      match sp_take c st nx v k (match k with TPop => 0 | _ => idx end) KDrop with
+      | Some r => Some (if s_out r =? 0 then {| s_out := 0; s_pk := 0; s_ret := [1; c_sz c; 0; 0; 0]; s_evs := s_evs r;
+                                               s_st := s_st r; s_nx := s_nx r |} else r)
+      | None => None
+      end
   | OPop _ v k => sp_take c st nx v TPop 0 k
   | ORemove _ v idx k => sp_take c st nx v TRemove idx k
   | OSwapRemove _ v idx k => sp_take c st nx v TSwapRemove idx k
